@@ -986,6 +986,8 @@ package sarama
 
 //@ func (t *transactionManager) getAndIncrementSequenceNumber(topic, partition) props C05
 //@   returns seq, epoch
+//@   callsite Sprintf: requires[key_format] $format == "%s-%d"
+//@   ensures[next_sequence] seq == acq(ite(haskey(t.sequenceNumbers, key), mapval(t.sequenceNumbers, key), 0)) && haskey(t.sequenceNumbers, key) && mapval(t.sequenceNumbers, key) == wrap32(seq + 1)
 //@   requires t.sequenceNumbers != nil
 //@   ensures[epoch] epoch == acq(t.producerEpoch) && t.producerEpoch == acq(t.producerEpoch)
 //@   modifies t.producerEpoch, map:t.sequenceNumbers
@@ -1043,6 +1045,8 @@ package sarama
 //@   ensures[disposed] forall i :: 0 <= i && i < len(batch) ==> batch[i].disp == old(batch[i].disp) + 1
 //@   loop 0: invariant forall j :: 0 <= j && j < $i ==> batch[j].disp == old(batch[j].disp) + 1
 //@   loop 0: invariant forall j :: $i <= j && j < len(batch) ==> batch[j].disp == old(batch[j].disp) && batch[j].retries >= 0
+//@   loop 0: invariant forall m *ProducerMessage :: m.disp >= old(m.disp)
+//@   ensures[monotone] forall m *ProducerMessage :: m.disp >= old(m.disp)
 
 // Ownership assumption A-own (trusted): the metadata client and the broker-producer registry never receive,
 // store or write a produceSet, partitionSet or ProducerMessage; calls into them leave those objects alone.
@@ -1123,6 +1127,7 @@ package sarama
 // A-input: offsets handled by the consumer are in [0, 2^62) (no int64 wrap-around).
 
 //@ ghost field ConsumerMessage.chained int
+//@ ghost field ConsumerMessage.delivered int
 
 //@ func (child *partitionConsumer) parseRecords(batch) props C03 C11
 //@   returns msgs, err
@@ -1133,7 +1138,7 @@ package sarama
 //@   ensures[from_start] forall k :: 0 <= k && k < len(msgs) ==> msgs[k].Offset >= old(child.offset)
 //@   ensures[strictly_increasing] forall a, b :: 0 <= a && a < b && b < len(msgs) ==> msgs[a].Offset < msgs[b].Offset
 //@   ensures[advance] child.offset > old(child.offset) && forall k :: 0 <= k && k < len(msgs) ==> msgs[k].Offset < child.offset
-//@   ensures[fresh_messages] forall k :: 0 <= k && k < len(msgs) ==> msgs[k].chained == 0 && allocated(msgs[k]) && fresh(msgs[k])
+//@   ensures[fresh_messages] forall k :: 0 <= k && k < len(msgs) ==> msgs[k].chained == 0 && msgs[k].delivered == 0 && allocated(msgs[k]) && fresh(msgs[k])
 //@   ensures[unaltered] forall k :: 0 <= k && k < len(msgs) ==> exists j :: 0 <= j && j < len(batch.Records) && msgs[k].Offset == batch.FirstOffset + batch.Records[j].OffsetDelta && msgs[k].Key == batch.Records[j].Key && msgs[k].Value == batch.Records[j].Value && msgs[k].Headers == batch.Records[j].Headers && msgs[k].Topic == child.topic && msgs[k].Partition == child.partition
 //@   loop 0: invariant child.offset >= old(child.offset) && child.offset < 4611686018427387904 + 4294967296 + 1
 //@   loop 0: invariant len(messages) > 0 ==> child.offset == messages[len(messages)-1].Offset + 1
@@ -1141,7 +1146,7 @@ package sarama
 //@   loop 0: invariant forall k :: 0 <= k && k < len(messages) ==> messages[k].Offset >= old(child.offset) && messages[k].Offset < child.offset
 //@   loop 0: invariant forall a, b :: 0 <= a && a < b && b < len(messages) ==> messages[a].Offset < messages[b].Offset
 //@   loop 0: invariant forall k :: 0 <= k && k < len(messages) ==> allocated(messages[k]) && fresh(messages[k])
-//@   loop 0: invariant forall k :: 0 <= k && k < len(messages) ==> messages[k].chained == 0
+//@   loop 0: invariant forall k :: 0 <= k && k < len(messages) ==> messages[k].chained == 0 && messages[k].delivered == 0
 //@   loop 0: invariant forall k :: 0 <= k && k < len(messages) ==> exists j :: 0 <= j && j < len(batch.Records) && messages[k].Offset == batch.FirstOffset + batch.Records[j].OffsetDelta && messages[k].Key == batch.Records[j].Key && messages[k].Value == batch.Records[j].Value && messages[k].Headers == batch.Records[j].Headers && messages[k].Topic == child.topic && messages[k].Partition == child.partition
 //@   modifies child.offset
 
@@ -1153,6 +1158,10 @@ package sarama
 
 //@ func (child *partitionConsumer) parseMessages(msgSet) props C03
 //@   returns msgs, err
+//@   callsite append: requires[absolute_offset_v0] msg.Msg.Version < 1 ==> offset == msg.Offset
+//@   callsite append: requires[rebased_offset_v1] msg.Msg.Version >= 1 && msgBlock.Msg.Set != nil ==> offset == msg.Offset + msgBlock.Offset - msgBlock.Msg.Set.Messages[len(msgBlock.Msg.Set.Messages)-1].Offset
+//@   callsite append: requires[single_message_v1] msg.Msg.Version >= 1 && msgBlock.Msg.Set == nil ==> offset == msgBlock.Offset && msg == msgBlock
+//@   callsite append: requires[not_before_start] offset >= child.offset
 //@   requires 0 <= child.offset && child.offset < 4611686018427387904
 //@   requires forall k :: 0 <= k && k < len(msgSet.Messages) ==> msgSet.Messages[k] != nil && msgSet.Messages[k].Msg != nil && 0 <= msgSet.Messages[k].Offset && msgSet.Messages[k].Offset < 4611686018427387904
 //@   requires forall k, q :: 0 <= k && k < len(msgSet.Messages) && msgSet.Messages[k].Msg.Set != nil && 0 <= q && q < len(msgSet.Messages[k].Msg.Set.Messages) ==> msgSet.Messages[k].Msg.Set.Messages[q] != nil && msgSet.Messages[k].Msg.Set.Messages[q].Msg != nil && 0 <= msgSet.Messages[k].Msg.Set.Messages[q].Offset && msgSet.Messages[k].Msg.Set.Messages[q].Offset < 4611686018427387904
@@ -1160,21 +1169,21 @@ package sarama
 //@   ensures[from_start] forall k :: 0 <= k && k < len(msgs) ==> msgs[k].Offset >= old(child.offset)
 //@   ensures[strictly_increasing] forall a, b :: 0 <= a && a < b && b < len(msgs) ==> msgs[a].Offset < msgs[b].Offset
 //@   ensures[advance] child.offset > old(child.offset) && forall k :: 0 <= k && k < len(msgs) ==> msgs[k].Offset < child.offset
-//@   ensures[fresh_messages] forall k :: 0 <= k && k < len(msgs) ==> msgs[k].chained == 0 && allocated(msgs[k]) && fresh(msgs[k])
+//@   ensures[fresh_messages] forall k :: 0 <= k && k < len(msgs) ==> msgs[k].chained == 0 && msgs[k].delivered == 0 && allocated(msgs[k]) && fresh(msgs[k])
 //@   loop 0: invariant child.offset >= old(child.offset) && child.offset <= 13835058055282163712
 //@   loop 0: invariant len(messages) > 0 ==> child.offset == messages[len(messages)-1].Offset + 1
 //@   loop 0: invariant len(messages) == 0 ==> child.offset == old(child.offset)
 //@   loop 0: invariant forall k :: 0 <= k && k < len(messages) ==> messages[k].Offset >= old(child.offset) && messages[k].Offset < child.offset
 //@   loop 0: invariant forall a, b :: 0 <= a && a < b && b < len(messages) ==> messages[a].Offset < messages[b].Offset
 //@   loop 0: invariant forall k :: 0 <= k && k < len(messages) ==> allocated(messages[k]) && fresh(messages[k])
-//@   loop 0: invariant forall k :: 0 <= k && k < len(messages) ==> messages[k].chained == 0
+//@   loop 0: invariant forall k :: 0 <= k && k < len(messages) ==> messages[k].chained == 0 && messages[k].delivered == 0
 //@   loop 1: invariant child.offset >= old(child.offset) && child.offset <= 13835058055282163712
 //@   loop 1: invariant len(messages) > 0 ==> child.offset == messages[len(messages)-1].Offset + 1
 //@   loop 1: invariant len(messages) == 0 ==> child.offset == old(child.offset)
 //@   loop 1: invariant forall k :: 0 <= k && k < len(messages) ==> messages[k].Offset >= old(child.offset) && messages[k].Offset < child.offset
 //@   loop 1: invariant forall a, b :: 0 <= a && a < b && b < len(messages) ==> messages[a].Offset < messages[b].Offset
 //@   loop 1: invariant forall k :: 0 <= k && k < len(messages) ==> allocated(messages[k]) && fresh(messages[k])
-//@   loop 1: invariant forall k :: 0 <= k && k < len(messages) ==> messages[k].chained == 0
+//@   loop 1: invariant forall k :: 0 <= k && k < len(messages) ==> messages[k].chained == 0 && messages[k].delivered == 0
 //@   modifies child.offset
 
 // parseResponse (C11): what is appended to the delivered messages. append#0 is the legacy-set append,
@@ -1186,15 +1195,16 @@ package sarama
 //@   callsite append#1: requires[no_control] !isControl
 //@   callsite append#1: requires[committed_only] child.conf.Consumer.IsolationLevel == ReadCommitted && records.RecordBatch.IsTransactional ==> !haskey(abortedProducerIDs, records.RecordBatch.ProducerID)
 //@   ensures[strictly_increasing @C03] err == nil ==> forall a, b :: 0 <= a && a < b && b < len(msgs) ==> msgs[a].Offset < msgs[b].Offset
-//@   ensures[fresh_messages @C18] err == nil ==> forall k :: 0 <= k && k < len(msgs) ==> msgs[k].chained == 0 && msgs[k] != nil
+//@   ensures[fresh_messages @C18] err == nil ==> forall k :: 0 <= k && k < len(msgs) ==> msgs[k].chained == 0 && msgs[k].delivered == 0 && msgs[k] != nil
 //@   ensures[offset_monotone @C03] child.offset >= old(child.offset)
+//@   ensures[advances_past_every_batch @C11 @C03] err == nil && nRecs > 0 ==> child.offset >= old(child.offset) + len(block.RecordsSet)
 //@   ensures[nil_on_error] err != nil ==> len(msgs) == 0
 //@   ensures[delivered_below_offset @C03] err == nil ==> forall k :: 0 <= k && k < len(msgs) ==> msgs[k].Offset >= old(child.offset) && msgs[k].Offset < child.offset
-//@   loop 0: invariant child.offset >= old(child.offset)
+//@   loop 0: invariant child.offset >= old(child.offset) + $i
 //@   loop 0: invariant forall k :: 0 <= k && k < len(messages) ==> messages[k].Offset >= old(child.offset) && messages[k].Offset < child.offset
 //@   loop 0: invariant forall a, b :: 0 <= a && a < b && b < len(messages) ==> messages[a].Offset < messages[b].Offset
 //@   loop 0: invariant forall k :: 0 <= k && k < len(messages) ==> allocated(messages[k])
-//@   loop 0: invariant forall k :: 0 <= k && k < len(messages) ==> messages[k].chained == 0
+//@   loop 0: invariant forall k :: 0 <= k && k < len(messages) ==> messages[k].chained == 0 && messages[k].delivered == 0
 //@   nosafety
 
 // responseFeeder (C18 consumer side): every message handed to Messages() has had the interceptor chain
@@ -1204,6 +1214,15 @@ package sarama
 //@   callsite interceptors: effect $msg.chained == old($msg.chained) + 1
 //@   requires 0 <= child.offset && child.offset < 2305843009213693952
 //@   callsite send.messages: requires[intercepted_exactly_once] $value.chained == 1
+//@   callsite send.messages: requires[not_yet_delivered @C03] $value.delivered == 0
+//@   callsite send.messages: modifies $value.delivered
+//@   callsite send.messages: effect $value.delivered == old($value.delivered) + 1
+//@   loop 1: invariant[delivered_prefix @C03] forall k :: 0 <= k && k < $i ==> msgs[k].delivered == 1
+//@   loop 1: invariant[undelivered_suffix @C03] forall k :: $i <= k && k < len(msgs) ==> msgs[k].delivered == 0
+//@   loop messageSelect: invariant[delivered_prefix @C03] forall k :: 0 <= k && k < i ==> msgs[k].delivered == 1
+//@   loop messageSelect: invariant[undelivered_suffix @C03] forall k :: i <= k && k < len(msgs) ==> msgs[k].delivered == 0
+//@   loop 2: invariant[delivered_prefix @C03] forall k :: 0 <= k && k < i + $i ==> msgs[k].delivered == 1
+//@   loop 2: invariant[undelivered_suffix @C03] forall k :: i + $i <= k && k < len(msgs) ==> msgs[k].delivered == 0
 //@   loop 1: invariant forall k :: $i <= k && k < len(msgs) ==> msgs[k].chained == 0
 //@   loop 1: invariant forall a, b :: 0 <= a && a < b && b < len(msgs) ==> msgs[a] != msgs[b]
 //@   loop messageSelect: invariant msg.chained == 1 && msg == msgs[i] && 0 <= i && i < len(msgs)
@@ -1392,3 +1411,27 @@ package sarama
 //@   ensures[topic_error] dyntype(err) == typeid(*TopicError) && err != nil ==> r == (err.(*TopicError).Err == ErrNotController)
 //@   ensures[topic_partition_error] dyntype(err) == typeid(*TopicPartitionError) && err != nil ==> r == (err.(*TopicPartitionError).Err == ErrNotController)
 //@   modifies nothing
+
+// ---------------------------------------------------------------------------------------------
+// strengthening after seeded-change review
+
+// (C05) the per-partition sequence counters are keyed by "<topic>-<partition>": the separator keeps keys of
+// different topic-partitions apart as long as topic names do not end in "-<digits>" of another topic.
+
+// (C11) the aborted-transaction index is consumed in FirstOffset order: getAbortedTransactions sorts it.
+// sorted(at) is established by sort.Slice with the FirstOffset comparison (T-stdlib: sort.Slice sorts by `less`).
+//@ func (b *FetchResponseBlock) getAbortedTransactions() props C11
+//@   returns r
+//@   callsite Slice: modifies maps
+//@   callsite Slice: effect forall i, j :: 0 <= i && i < j && j < len(at) ==> at[i].FirstOffset <= at[j].FirstOffset
+//@   ensures[sorted_by_first_offset] forall i, j :: 0 <= i && i < j && j < len(r) ==> r[i].FirstOffset <= r[j].FirstOffset
+//@   nosafety
+
+// handleSuccess, second pass (retriable error classes with a retry budget): every message of the set is
+// re-queued or failed exactly once; sets answered with anything else are not touched again.
+//@ func brokerProducer.handleSuccess#lit1(topic, partition, pSet) props C01
+//@   per_return
+//@   requires response != nil
+//@   requires forall i :: 0 <= i && i < len(pSet.msgs) ==> idxOf(pSet.msgs, pSet.msgs[i]) == i && pSet.msgs[i].retries >= 0
+//@   ensures[retried_once] block != nil && !bp.parent.conf.Producer.Idempotent && (block.Err == ErrInvalidMessage || block.Err == ErrUnknownTopicOrPartition || block.Err == ErrLeaderNotAvailable || block.Err == ErrNotLeaderForPartition || block.Err == ErrRequestTimedOut || block.Err == ErrNotEnoughReplicas || block.Err == ErrNotEnoughReplicasAfterAppend) ==> forall i :: 0 <= i && i < len(pSet.msgs) ==> pSet.msgs[i].disp >= old(pSet.msgs[i].disp) + 1
+//@   ensures[untouched_otherwise] block == nil || !(block.Err == ErrInvalidMessage || block.Err == ErrUnknownTopicOrPartition || block.Err == ErrLeaderNotAvailable || block.Err == ErrNotLeaderForPartition || block.Err == ErrRequestTimedOut || block.Err == ErrNotEnoughReplicas || block.Err == ErrNotEnoughReplicasAfterAppend) ==> forall i :: 0 <= i && i < len(pSet.msgs) ==> pSet.msgs[i].disp == old(pSet.msgs[i].disp)
